@@ -53,6 +53,10 @@ def patch_text(spec: dict, isa: str) -> str:
             "callret": f"call {tgt or 'b1'}\nmovb ${k}, %cl\nret",
             "resume": (f"leaq .Lr(%rip), {ax}\njmp *{ax}\n.Lr:" if isa == "x64"
                        else f"leal .Lr, {ax}\njmp *{ax}\n.Lr:"),
+            # a patch that also puts data (with a label and a symbolic word) into .data
+            "datasec": ((f"leaq .Ld(%rip), %rax" if isa == "x64" else f"leal .Ld, %eax")
+                        + f"\n.section .data\n.Ld:\n.byte {k}\n"
+                        + (f".quad {tgt or 'b1'}" if isa == "x64" else f".long {tgt or 'b1'}") + "\n.text"),
         }
         return table[kind]
     if isa == "arm64":
@@ -161,8 +165,32 @@ def project_assembled(result: Assembler.Result, module: gtirb.Module) -> dict:
     except Exception:
         cfi = [{"o": 0, "ds": [{"op": "?error", "args": [], "sym": "", "big": False}]}]
     cfi.sort(key=lambda c: c["o"])
+    other = []
+    for name, osec in sorted(result.sections.items()):
+        if osec is sect:
+            continue
+        odata = bytes(osec.data)
+        ounits = []
+        osx = [{"o": off, "d": sx_desc(e)} for off, e in sorted(osec.symbolic_expressions.items())]
+        for i in range(len(odata)):
+            tg = ""
+            for x in osx:
+                if x["o"] == i:
+                    tg = x["d"][1]
+            ounits.append({"o": i, "n": 1, "k": "data" if all(isinstance(b, gtirb.DataBlock) for b in osec.blocks) else "code",
+                           "tg": tg, "tgb": base_name(tg), "by": [odata[i]]})
+        oblocks = {id(b): b for b in osec.blocks}
+        olabels = []
+        for s in result.symbols:
+            r = s._payload
+            if isinstance(r, gtirb.ByteBlock) and id(r) in oblocks:
+                olabels.append({"nm": s.name, "base": base_name(s.name),
+                                "o": r.offset + (r.size if s.at_end else 0)})
+        olabels.sort(key=lambda d: (d["o"], d["nm"]))
+        other.append({"name": name, "units": ounits, "labels": olabels, "sx": osx, "n": len(odata),
+                      "sxs": [{"o": off, "v": int(v)} for off, v in sorted(osec.symbolic_expression_sizes.items())]})
     return {"units": units, "sx": sx, "labels": labels, "n": len(data),
-            "sxs": sxs, "nsec": len(result.sections), "cfi": cfi}
+            "sxs": sxs, "nsec": len(result.sections), "cfi": cfi, "other": other}
 
 
 def assemble_standalone(shape: dict, spec: dict) -> dict:
@@ -176,10 +204,10 @@ def assemble_standalone(shape: dict, spec: dict) -> dict:
 
 def bytes_patch(data: bytes) -> dict:
     return {"units": [{"o": i, "n": 1, "k": "data", "tg": "", "tgb": "", "by": [v]} for i, v in enumerate(data)],
-            "sx": [], "labels": [], "n": len(data), "sxs": [], "nsec": 1, "cfi": []}
+            "sx": [], "labels": [], "n": len(data), "sxs": [], "nsec": 1, "cfi": [], "other": []}
 
 
-EMPTY_PATCH = {"units": [], "sx": [], "labels": [], "n": 0, "sxs": [], "nsec": 0, "cfi": []}
+EMPTY_PATCH = {"units": [], "sx": [], "labels": [], "n": 0, "sxs": [], "nsec": 0, "cfi": [], "other": []}
 
 
 def exc_name(e: BaseException) -> str:
